@@ -18,7 +18,7 @@ RULE = ("cases = generated object trees (depth <= 3, fan-out <= 3: rand_attr and
         "non-random sub-object whose own block is violated by its current values, and a call returned; distinct = distinct "
         "canonical case")
 ASSUMPTIONS = [
-    "list elements are instances of the list's declared class (subclass elements that add fields: see known findings / C08 notes)",
+    "constraints name only fields of a list's declared element class; elements may be instances of subclasses that add fields",
     "rand_mode of composite sub-objects is not driven",
 ]
 
@@ -35,20 +35,6 @@ def cases(d):
     calls = [{"kind": d.choice(["randomize", "randomize_with", "vsc.randomize", "randomize"]), "seed": d.seed()}
              for _ in range(d.randint(1, 3))]
     return {"prog": prog, "inline": inline, "calls": calls, "sel": [d.randint(0, 1 << 16) for _ in range(8)], "pseed": d.seed()}
-
-
-@findings.predicate("c08_subclass_element_shifts_indices")
-def pred_subclass_shift(case):
-    """an object list holds an instance of a subclass whose added field sorts before an inherited field (the
-    library resolves arr[i].f through the declared element class's index table)"""
-    if not case.get("subclass"):
-        return False
-    prog = case["prog"]
-    base = [f["name"] for f in tree.class_by_name(prog, "E")["fields"]]
-    extra = [f["name"] for f in tree.class_by_name(prog, "E2")["fields"]]
-    top = tree.class_by_name(prog, "Top")
-    has = any("E2" in l["elems"] for l in top.get("objlists", []))
-    return has and any(e < max(base) for e in extra) if base and extra else False
 
 
 @hyp.composite
@@ -635,8 +621,6 @@ def body(case, acc):
         acc.label("has object list")
     if case.get("subclass"):
         acc.label("list with subclass elements")
-        if pred_subclass_shift(case):
-            acc.label("known-finding shape: subclass field shifts inherited indices")
     acc.label("probes", info.get("probes", 0))
     return vios
 
